@@ -63,6 +63,30 @@ func indC01(kind string, inLoop, inFn bool, r int) {
 	}
 }
 
+// VHIndStepC20: every scope a call or a match opens is one level deeper than the scope
+// it was opened from and is refused beyond the limit, so recursion of any shape — direct,
+// mutual, through match bodies — runs into the limit.
+func VHIndStepC20() {
+	kinds := []string{"call", "matchexpr", "matchblock"}
+	kind := kinds[vh.Choose("kind", len(kinds))]
+	st := lang.VhRunStep(kind, false, true, 5)
+	vh.Reach("step evaluated")
+	bodySlot := map[string]int{"call": 1003, "matchexpr": 1002, "matchblock": 1002}[kind]
+	ran := false
+	for _, ev := range lang.VhLog {
+		if ev.Slot == bodySlot {
+			ran = true
+			vh.Assert(ev.Depth == st.D+1, "C20 step ["+kind+"]: the body of a call / match runs one level deeper than its caller")
+			vh.Assert(ev.Depth <= st.Limit, "C20 step ["+kind+"]: a body runs beyond the depth limit")
+		} else {
+			vh.Assert(ev.Depth == st.D, "C20 step ["+kind+"]: operands are evaluated at the caller's depth")
+		}
+	}
+	if st.D+1 > st.Limit {
+		vh.Assert(!ran, "C20 step ["+kind+"]: beyond the limit the body must not run")
+	}
+}
+
 // VHIndCallDepth (C20): from a frame of symbolic depth d a call succeeds iff the new
 // depth stays within the limit; otherwise it is a runtime error and no frame is left.
 func VHIndCallDepth() {
